@@ -234,13 +234,12 @@ fn removed_parentheses_comments(
 /// If the operand kept its parentheses [e.g. `-(-foo())`], nothing needs to be added.
 fn parenthesise_nested_unary_minus(unop: &UnOp, expression: Expression) -> Expression {
     if let UnOp::Minus(_) = unop {
-        let require_parentheses = matches!(
-            expression,
-            Expression::UnaryOperator {
-                unop: UnOp::Minus(_),
-                ..
-            }
-        );
+        // The operand begins with a minus itself: a nested unary minus, or one further inside
+        // [e.g. the type assertion in `- -x :: T :: T`]
+        let require_parentheses = expression
+            .tokens()
+            .next()
+            .is_some_and(|token| token.token().to_string() == "-");
 
         if require_parentheses {
             let (new_expression, trailing_comments) =
